@@ -18,11 +18,11 @@ READ_OPS = {"getattr": "GetAttr", "lopen": "Open", "read": "ReadAt", "readdir": 
 WRITE_OPS = {"setattr": "SetAttr", "mkdir": "Mkdir", "create": "Create", "symlink": "Symlink", "mknod": "Mknod", "link": "Link"}
 
 
-def cfg(h, plans, fixed, invariants=(), props=(), loop=True):
+def cfg(h, plans, fixed, invariants=(), props=(), loop=True, deadlock=False):
     l = ["SPECIFICATION Spec", "CONSTANTS", "  H = {%s}" % ", ".join(str(i) for i in range(1, h + 1)),
          "  Plans = {%s}" % ", ".join('"%s"' % p for p in plans),
          "  Loop = %s" % ("TRUE" if loop else "FALSE"),
-         "  Fixed = {%s}" % ", ".join('"%s"' % f for f in fixed), "CHECK_DEADLOCK FALSE"]
+         "  Fixed = {%s}" % ", ".join('"%s"' % f for f in fixed), "CHECK_DEADLOCK " + ("TRUE" if deadlock else "FALSE")]
     if loop:
         l.append("VIEW View")
     if invariants:
